@@ -119,7 +119,7 @@ let () =
     match split_tab line with
     | [id; body] ->
       (match String.split_on_char '|' body with
-       | ("sq:text" | "sq:ctx" | "sq:api") :: _src :: a :: v :: binds ->
+       | ("sq:text" | "sq:ctx" | "sq:api" | "sq:twice") :: _src :: a :: v :: binds ->
          let a = tmpl_of_string a and v = value_of_string v in
          let rho = mk_rho (List.map parse_binding binds) in
          let model =
